@@ -314,6 +314,8 @@ func execRound(toks []string) string {
 		var timedOut bool
 		if toks[0] == "pa.round" {
 			res, timedOut = execPatherRoundOnce(toks, deadline)
+		} else if toks[0] == "pd.round" {
+			res, timedOut = execPatherDaemonRoundOnce(toks, deadline)
 		} else {
 			res, timedOut = execRoundOnce(toks, deadline)
 		}
@@ -595,8 +597,10 @@ func exec(t []string) string {
 			}
 			return fmt.Sprintf("ok %d [%s] %d", k, strings.Join(picks, ","), sc.pos)
 		})
-	case t[0] == "mp.round", t[0] == "pa.round":
+	case t[0] == "mp.round", t[0] == "pa.round", t[0] == "pd.round":
 		return execRound(t)
+	case t[0] == "pd.start", t[0] == "pd.refresh":
+		return execPatherDaemon(t)
 	case t[0] == "pa.set":
 		return execPatherSet(t)
 	}
@@ -1312,6 +1316,7 @@ func gen(c *lib.Ctx) {
 	}
 	genRounds(c)
 	genPatherRounds(c)
+	genPatherDaemon(c)
 }
 
 func main() { lib.Main(exec, gen) }
